@@ -35,7 +35,7 @@ SpendM == {"delegate", "undelegate", "redelegate", "cancelUnbonding", "ibcTransf
 OwnerM == {"withdrawRewards", "claimRewards", "setWithdrawAddress"}
 ApprM  == {"approve", "increaseAllowance", "decreaseAllowance", "revoke"}
 IbcM   == {"ibcApprove", "ibcIncrease", "ibcDecrease", "ibcRevoke"}
-LeafKinds == {"spend", "spend2", "owner", "appr", "ibcappr", "send", "store", "query"}
+LeafKinds == {"spend", "spend2", "owner", "appr", "ibcappr", "send", "store", "query", "log"}
 Leaf(k, id, d, md) ==
     CASE k \in {"spend", "spend2"} -> {Pc(id, md, m, who, a) : m \in SpendM, who \in {"S", "self", "T"}, a \in Amts}
       [] k = "owner" -> {Pc(id, md, m, who, Amt) : m \in OwnerM, who \in {"S", "self", "T"}}
@@ -46,6 +46,7 @@ Leaf(k, id, d, md) ==
                                                   ge \in IF d = "call" THEN {"C0", "self"} ELSE {"self"}}
       [] k = "send"  -> {Send(id, to, v) : to \in {"S", "T", "W"}, v \in {"300", "50"}}
       [] k = "store" -> {Store(id)}
+      [] k = "log"   -> {Log(id)}
       [] k = "query" -> {Query(id)}
       \* re-enter the top contract (which then runs its alt body)
       [] k = "recall" -> {Recall(id, md, "C0", Z)}
@@ -125,7 +126,7 @@ Emit ==
           \* kinds: 0 = no grant, 1, 2 = unlimited, 3 = limited, 4 = other validator only
           LET gs == {GrantOf(p, f[p]) : p \in {q \in few : f[q] # 0}} \cup {GrantOf(p, 1) : p \in ps \ few}
               su == IF own = 2 /\ tree.op = "call" THEN SetupC(w, SeqOf(gs), TRUE) ELSE Setup("a1", w, SeqOf(gs), Z)
-              x  == [setup |-> [su EXCEPT !.acl = (warm = 2)], top |-> tree, fam |-> "rand"]
+              x  == [setup |-> [su EXCEPT !.acl = (warm = 2), !.priorLog = (own = 1)], top |-> tree, fam |-> "rand"]
           IN /\ out' = [tag |-> "scenario", x |-> x]
              /\ PrintT(<<"SCRIPT", ToJson(x)>>)
     /\ UNCHANGED <<sc, tree, path, nid, fin>>
